@@ -257,11 +257,28 @@ def explore(fn_node, primary_arg_pred, writer_methods=("dump",)):
     proto = Proto(fn_node, writer_methods)
     # primary path: first arg of the write call selected by predicate
     primary = None
+    wnode = None
     for n in ast.walk(fn_node):
         if isinstance(n, ast.Call) and unparse(n.func) in WRITE and primary_arg_pred(n):
             primary = proto.path(n.args[0])
+            wnode = n
     if primary is None:
         raise AnalysisError("result-file writer call (np.savez(path, **dict)) not found in the protocol function")
+    # the result file is where the written data finally lives: follow renames/replaces of the written
+    # path that come after the write in program order (write-to-temporary-then-replace protocols)
+    temp_paths = set()
+    moved = True
+    hops = 0
+    while moved and hops < 4:
+        moved = False
+        for n in ast.walk(fn_node):
+            if isinstance(n, ast.Call) and unparse(n.func) in MOVE and len(n.args) >= 2 \
+                    and (n.lineno, n.col_offset) > (wnode.lineno, wnode.col_offset) and proto.path(n.args[0]) == primary:
+                temp_paths.add(primary)
+                primary = proto.path(n.args[1])
+                moved = True
+                hops += 1
+                break
 
     def family(p):
         return primary in p
@@ -282,9 +299,17 @@ def explore(fn_node, primary_arg_pred, writer_methods=("dump",)):
             if family(pth):
                 fam.add(pth)
     fam = sorted(fam)
-    start0 = tuple((p, A) for p in fam)
-    seen = {start0: None}
-    work = [start0]
+    # every abstract directory state is a start state (superset of the closure under crash-and-restart:
+    # also covers directories left behind by an earlier version of the protocol)
+    import itertools
+    if len(fam) > 5:
+        raise AnalysisError(f"protocol touches {len(fam)} result-family paths; state space too large for exhaustive start states")
+    seen = {}
+    work = []
+    for combo in itertools.product((A, P, C), repeat=len(fam)):
+        k = tuple(zip(fam, combo))
+        seen[k] = None
+        work.append(k)
     violations = []
     transitions = 0
     samples = []
@@ -294,18 +319,20 @@ def explore(fn_node, primary_arg_pred, writer_methods=("dump",)):
         run = Run(proto, primary, family)
         run.execute(dict(start))
         transitions += run.transitions
-        had_complete = any(v == C for _, v in start)
+        def has_result(key):
+            return any(v == C for pth, v in key if pth not in temp_paths)
+        had_complete = has_result(start)
         for st, trace, line in run.crash_states:
             key = tuple((p, st.get(p, A)) for p in fam)
             crash_points.add(line)
-            if had_complete and not any(v == C for _, v in key):
+            if had_complete and not has_result(key):
                 violations.append({"start": dict(start), "after": trace[-1], "state": dict(key), "trace": trace, "line": line})
             if key not in seen:
                 seen[key] = (start, trace)
                 work.append(key)
         for st, trace, ctl in run.final_states:
             key = tuple((p, st.get(p, A)) for p in fam)
-            if had_complete and not any(v == C for _, v in key):
+            if had_complete and not has_result(key):
                 violations.append({"start": dict(start), "after": "function exit (" + str(ctl) + ")", "state": dict(key), "trace": trace, "line": None})
             # a normal (non-raising) completion must leave the primary complete
             if ctl != "raise" and dict(key).get(primary) != C:
@@ -317,6 +344,6 @@ def explore(fn_node, primary_arg_pred, writer_methods=("dump",)):
         if len(samples) < 6:
             samples.append({"start": dict(start), "crash_instants": len(run.crash_states),
                             "example_trace": run.crash_states[-1][1] if run.crash_states else []})
-    return {"primary": primary, "family": fam, "states": len(seen), "transitions": transitions,
+    return {"primary": primary, "family": fam, "temp_paths": sorted(temp_paths), "states": len(seen), "transitions": transitions,
             "violations": violations, "samples": samples, "start_states": [dict(k) for k in seen],
             "crash_lines": sorted(x for x in crash_points if x)}
